@@ -35,6 +35,7 @@ var hazardLambdas = []string{
 	`"s" =~ /a.c/`, `"s" == 'abc' OR float("s") > 1.0`, `"s" == 'abc' OR int("s") > 1`, `"s" == 'abc' OR bool("s")`, `"s" == 'abc' OR duration("s") > 1s`, `string("i") == '2'`, `float("i") * "f" > 1.0`,
 	`if("b", 10 / "i", 0) == 5`, `sigma("f") >= 0.0 OR "j" == 1`, `count() / "i" >= 0`, `spread("f") / "f" >= 0.0 OR "j" == 1`, `abs(float("i")) > 0.0`, `pow(float("i"), "f") > 0.0`, `sqrt("f") > 0.0`, `log("f") > 0.0`,
 	`hour("time") >= 0`, `unixNano("time") / "i" != 0`, `"i" > "f"`, `"s" + 'x' == 'abcx'`, `!"b" OR "i" / "j" == 2`, `isPresent("i") AND "i" / "i" == 1`,
+	`10s / "i" > 0s`, `duration("i", 1s) / "j" >= 0s`, `1s / 2.0 * "f" > 0s`, `1h / duration("i", 1m) > 0`,
 	`humanBytes("i") != ''`, `strToUpper("s") == 'ABC'`, `ceil("f") / float("i") > 0.0`, `max("f", 1.0) / min("f", 1.0) > 1.0`, `-"i" / "j" < 0`, `"i" * "i" / "i" == "i"`,
 }
 
